@@ -230,6 +230,13 @@ func init() {
 			}
 			return 0, false
 		})
+		// Reset: the three counters are (re)assigned inside one acquisition of the limiter's lock
+		e.c16Blocks(ev, "EvictionLimiter", "Reset", "limiterReset", func(n ast.Node) (int, bool) {
+			if s, ok := n.(*ast.AssignStmt); ok && len(s.Lhs) == 1 && c16Mentions(s.Lhs[0], counters...) {
+				return 2, true
+			}
+			return 0, false
+		})
 		rt := "pkg/descheduler/framework/runtime"
 		w := e.c16Blocks(rt, "evictorProxy", "Evict", "proxyEvict", func(n ast.Node) (int, bool) {
 			if c16SelCall(n, "AllowEvict") {
